@@ -257,6 +257,7 @@ def run(ctx):
     _cycle_search_is_linear(ctx)
     _cycle_search_starts_from_one_node(ctx)
     _edges_do_not_depend_on_the_graph_so_far(ctx)
+    _every_type_of_the_module_contributes_edges(ctx)
     # emission loops (iterator-style `for` or range-for)
     n_em = 0
     for n in fw.walk():
@@ -502,3 +503,47 @@ def _edges_do_not_depend_on_the_graph_so_far(ctx):
                "the edge is recorded whatever the map holds so far" if not bad else
                "the edge is recorded only if `%s`: that depends on the order in which libraries were met" % show(bad[0]["c"])[:70])
     ctx.floor("R16.6", "edge inserts in the collection phase", n, 2)
+
+
+EDGE_SCAN_CONDITIONS = ("interrogate_type_has_module_name", "interrogate_type_module_name", "interrogate_type_has_library_name", "operator==")
+
+
+def _every_type_of_the_module_contributes_edges(ctx):
+    """R16.7: a library must be initialised after every library that one of ITS types derives from - any of its global
+    types: top-level or nested, class or typedef.  The loop over the global types may therefore reach the scan of a
+    type's derivations under no other condition than "the type belongs to this module and has a library name"; nothing
+    in the loop skips a type on other grounds.  (Seed S11-C16: nested types were skipped "because the outer class names
+    the same library"; `Toolbox::Hammer : Widget` then contributed no edge and libalpha was initialised first.)"""
+    db = ctx.db
+    ctx.rule("R16.7", "in write_python_table_native the loop over the global types reaches the derivation scan under the module/library-name tests only, and contains no `continue`")
+    fs = [g for g in db.functions if g.name.endswith("write_python_table_native")]
+    if not fs:
+        ctx.broken("R16.7: write_python_table_native not found")
+        return
+    f = fs[0]
+    n = 0
+    for lp in f.walk():
+        if lp.get("k") not in ("for", "forrange", "while"):
+            continue
+        body = lp.get("body") or {}
+        scans = [c for c in walk(body) if c.get("k") == "call" and callee_short(c) == "interrogate_type_number_of_derivations"]
+        if not scans or not any(c.get("k") == "call" and callee_short(c) == "interrogate_get_global_type" for c in walk(body)):
+            continue
+        n += 1
+        skips = [y for y in walk(body) if y.get("k") == "continue" and next((a for a in f.ancestors(y) if a.get("k") in ("for", "forrange", "while", "do")), None) is lp]
+        conds = []
+        for a in f.ancestors(scans[0]):
+            if a is lp:
+                break
+            if a.get("k") == "if" and any(z is scans[0] for z in walk(a.get("then") or {})):
+                conds.append(a["c"])
+        foreign = []
+        for c in conds:
+            for z in walk(c):
+                if z.get("k") == "call" and callee_short(z) not in EDGE_SCAN_CONDITIONS and not (z.get("f") or "").startswith("std::"):
+                    foreign.append(z)
+        ok = not skips and not foreign
+        ctx.ob("R16.7", "write_python_table_native|global-type-loop|no-type-skipped", ok, f.loc(skips[0]) if skips else (f.loc(foreign[0]) if foreign else f.loc(lp)),
+               "every global type of the module with a library name has its derivations scanned" if ok else
+               ("a `continue` skips some types before their derivations are scanned" if skips else "the scan also depends on %s()" % callee_short(foreign[0])))
+    ctx.floor("R16.7", "loops over the global types that scan derivations", n, 1)
